@@ -3,7 +3,7 @@ import itertools
 import random
 
 from corr.common import Tally
-from corr.appcommon import CBS, model_line, sim_scenario, impl_line, model_callbacks
+from corr.appcommon import CBS, model_line, sim_scenario, impl_line, model_callbacks, close_body_legal
 from sim.appsim import run_app
 
 FR = {
@@ -49,6 +49,12 @@ def gen(tier, rng, reconnect_values=(0,)):
                         cbs2 = dict(cbs)
                         del cbs2["on_error"]
                         yield {"callbacks": cbs2, "attempts": [{"evs": tr + end}]}
+    # 3b. close frames with every kind of body, validation on and off (off: an ill-formed reason is still a close frame)
+    for body in (b"\x03\xe8", b"\x03\xe9" + "é€".encode(), b"\x0b\xb8ok", b"\x03\xe8\xff\xfe", b"\x03\xe8ab\xc3", b"\x03\xe8\xed\xa0\x80", b"\x03"):
+        for skip in (False, True):
+            for tr in (TRAFFIC[0], TRAFFIC[2]):
+                yield {"callbacks": dict(allret), "attempts": [{"evs": tr + [("F", 8, 1, body.hex())]}], "skip": skip}
+                yield {"callbacks": {"on_close": "ret"}, "attempts": [{"evs": tr + [("F", 8, 1, body.hex())]}], "skip": skip}
     # 4. refused / rejected, no reconnect
     for a in ({"refuse": True}, {"status": 404}, {"status": 500}):
         yield {"callbacks": dict(allret), "attempts": [a]}
@@ -73,6 +79,12 @@ def gen_reconnect(tier, rng):
                     if not with_rc:
                         del cbs["on_reconnect"]
                     yield {"callbacks": cbs, "attempts": atts, "reconnect": R}
+    # long outages: hundreds of consecutive failures (no bound on their number), then the server is back
+    for n, kind in ((400, "refuse"), (700, "mixed"), (1100 if tier == "quick" else 3000, "lost")):
+        fails = {"refuse": [{"refuse": True}], "mixed": [{"refuse": True}, {"status": 503}, {"evs": [("BC",)]}],
+                 "lost": [{"evs": [FR["text"], ("BR",)]}, {"evs": [("BC",)]}]}[kind]
+        atts = [dict(fails[i % len(fails)]) for i in range(n)] + [{"evs": [FR["text"], FR["close0"]]}]
+        yield {"callbacks": dict(allret), "attempts": atts, "reconnect": 1}
     # user close() from a callback on the k-th connection ends the run
     for cb in ("on_open", "on_reconnect", "on_message"):
         cbs = dict(allret)
@@ -99,8 +111,8 @@ def compare(ctx, T, scs, bucket):
             T.fail("spec", sc, "run_forever returns", "stuck: " + res["stuck"][:200], {"site": "run_forever", "cls": "does-not-return"},
                    what="run_forever did not return in the simulation")
             continue
-        if mo is not None and model_callbacks(mo) != il:
-            T.fail("corr", {"scenario": sc, "line": model_line(sc)}, model_callbacks(mo)[:500], il[:500], {"site": "apprun"})
+        if mo is not None and model_callbacks(mo, sc) != il:
+            T.fail("corr", {"scenario": sc, "line": model_line(sc)}, model_callbacks(mo, sc)[:500], il[:500], {"site": "apprun"})
     T.validated += len(scs)
     return results
 
@@ -158,7 +170,7 @@ def judge_c13(T, ctx, sc, res, il):
     want = expected_callbacks(sc, items)
     got = il.split(";")[0].split(",") if il.split(";")[0] else []
     if got[:len(want)] != want:
-        T.fail("spec", {"scenario": model_line(sc)}, str(want)[:400], str(got)[:400], {"site": "run_forever", "cls": "callback-sequence"},
+        T.fail("spec", {"scenario": model_line(sc), "sc": sc}, str(want)[:400], str(got)[:400], {"site": "run_forever", "cls": "callback-sequence"},
                what="callbacks are not 'on_open, then every message/ping/pong exactly once in the order sent'")
         return
     # promptness: every callback fires at the arrival time of the frame that completes its item
@@ -183,7 +195,7 @@ def judge_c13(T, ctx, sc, res, il):
         i += k
     for ts, arr in zip(per_item, arrivals):
         if any(abs(x - arr) > 1e-9 for x in ts):
-            T.fail("spec", {"scenario": model_line(sc)}, f"callbacks at arrival time {arr}", str(ts), {"site": "dispatcher", "cls": "late-delivery"},
+            T.fail("spec", {"scenario": model_line(sc), "sc": sc}, f"callbacks at arrival time {arr}", str(ts), {"site": "dispatcher", "cls": "late-delivery"},
                    what="an event was not delivered as soon as its bytes had arrived")
             return
 
@@ -191,7 +203,7 @@ def judge_c13(T, ctx, sc, res, il):
 def judge_c14(T, sc, res, il):
     cbs = sc["callbacks"]
     tr = il.split(";")[0].split(",") if il.split(";")[0] else []
-    pub = {"scenario": model_line(sc)}
+    pub = {"scenario": model_line(sc), "sc": sc}
     if res.get("stuck"):
         return
     closes = [i for i, x in enumerate(tr) if x.startswith("close:")]
@@ -225,11 +237,16 @@ def judge_c14(T, sc, res, il):
             if e[0] != "F":
                 break
         c = tr[closes[0]].split(":")
-        if consumed_close is not None and not any(m in ("close", "kbd", "raise") for m in cbs.values()) and len(sc["attempts"]) == 1 \
+        if consumed_close is not None and not close_body_legal(bytes.fromhex(consumed_close[3]), bool(sc.get("skip"))):
+            consumed_close = None          # an illegal close frame is a protocol error, not "the close frame by which the server ended the connection"
+            if c != ["close", "None", "None"]:
+                T.fail("spec", pub, "on_close(None, None) after an illegal close frame", str(c), {"site": "teardown", "cls": "close-args"})
+                return
+        elif consumed_close is not None and not any(m in ("close", "kbd", "raise") for m in cbs.values()) and len(sc["attempts"]) == 1 \
                 and not any(e[0] in ("O",) for e in last["evs"]):
             body = bytes.fromhex(consumed_close[3])
-            from corr.common import digest
-            want = ["close", str(int.from_bytes(body[:2], "big")), digest(body[2:])] if len(body) >= 2 else ["close", "None", "None"]
+            from corr.appcommon import reason_digest
+            want = ["close", str(int.from_bytes(body[:2], "big")), reason_digest(body[2:])] if len(body) >= 2 else ["close", "None", "None"]
             if c != want and not any(x.startswith("err:") for x in tr[:closes[0]]):
                 T.fail("spec", pub, str(want), str(c), {"site": "teardown", "cls": "close-args"})
                 return
@@ -272,7 +289,7 @@ def judge_c15(T, sc, res, il):
     if not R or res.get("stuck"):
         return
     sc = dict(sc, attempts=effective(sc))
-    pub = {"scenario": model_line(sc)}
+    pub = {"scenario": model_line(sc), "sc": sc}
     tr = il.split(";")[0].split(",") if il.split(";")[0] else []
     n = len(sc["attempts"])
     ends_by_close_cb = any(m == "close" for m in sc["callbacks"].values())
@@ -336,13 +353,14 @@ def run(ctx, which="C13"):
                     and not any(e[0] == "T" for a in sc["attempts"] if "evs" in a for e in a["evs"]):
                 exp = reconnect_times_ok(sc, res)
                 if [round(x, 6) for x in res["attempts"]] != [round(x, 6) for x in exp]:
-                    T.fail("spec", {"scenario": model_line(sc)}, f"attempts at {exp}", str(res["attempts"]), {"site": "reconnect", "cls": "reconnect-delay"},
+                    T.fail("spec", {"scenario": model_line(sc), "sc": sc}, f"attempts at {exp}", str(res["attempts"]), {"site": "reconnect", "cls": "reconnect-delay"},
                            what="a new attempt must start exactly `reconnect` seconds after the loss")
     if which == "C13":
         bursts(ctx, T)
     if which == "C14":
         second_runs(ctx, T, rng)
         failing_later_runs(ctx, T)
+        multi_runs(ctx, T, rng)
         closer_threads(ctx, T, rng)
     if which == "C15":
         external_dispatcher(ctx, T, rng)
@@ -382,6 +400,28 @@ def bursts(ctx, T):
                 T.fail("spec", {"kind": "burst", "scheme": scheme, "tls_pending": tls}, "8 callbacks, all at t=1.0", str(times),
                        {"site": "dispatcher", "cls": "late-delivery", "tls": tls},
                        what="frames that arrived in one segment were not all delivered at once")
+
+
+    # the same for a frame larger than one read followed by small ones, and for a frame cut across two segments whose
+    # second segment also carries the next frames: nothing may be left waiting in a user-space buffer
+    big = server_frame(2, bytes(range(256)) * 80) + server_frame(1, b"after") + server_frame(9, b"pp")
+    long_ = server_frame(1, b"a-message-of-some-length")
+    tail = server_frame(9, b"q") + server_frame(1, b"last")
+    variants = [("big-then-small", [[1.0, "D", big.hex()]], [1.0] * 5)]
+    for cut in (1, 2, 3, 5, len(long_) - 1):
+        variants.append((f"split-at-{cut}", [[1.0, "D", long_[:cut].hex()], [1.5, "D", (long_[cut:] + tail).hex()]], [1.5] * 5))
+    for name, evs, want in variants:
+        for tls, scheme in ((False, "ws"), (True, "wss")):
+            sim = {"scheme": scheme, "callbacks": {c: "ret" for c in CBS}, "attempts": [{"events": evs + [[60.0, "D", server_frame(8, b"").hex()]], "tls": tls}],
+                   "args": {}, "closer": [], "runs": 1}
+            res = run_app(sim)
+            times = [ev[0] for ev in res["trace"] if ev[1] in ("data", "message", "ping", "pong")]
+            T.case(("burst", name, tls), bucket="burst", sample={"variant": name, "tls_pending": tls, "times": times})
+            if len(times) != len(want) or any(abs(t - w_) > 1e-9 for t, w_ in zip(times, want)):
+                T.fail("spec", {"kind": "burst2", "sim": sim}, f"{len(want)} callbacks at {want[0]}", str(times),
+                       {"site": "dispatcher", "cls": "late-delivery", "variant": name.split("-at-")[0]},
+                       what="frames whose bytes had all arrived were not delivered until further traffic came")
+                break
 
 
 def second_runs(ctx, T, rng):
@@ -427,6 +467,13 @@ def failing_later_runs(ctx, T):
                    what="a run whose connection fails, on an object that was run before, must still end with on_close and leave the object reusable")
 
 
+def closer_bad(res):
+    names = [e[1] for e in res["trace"] if e[1] not in ("returned", "closer-calls-close")]
+    nclose = sum(1 for s_ in res["sockets"] for f in s_["frames"] if f[0] == 8)
+    return bool(res.get("stuck") or res["returns"] != [False] or names.count("close") != 1 or names[-1] != "close" or "error" in names
+                or res["threads_alive_at_end"] or not res["app_sock_none"] or any(s["closed"] < 1 for s in res["sockets"]) or nclose > 1)
+
+
 def closer_threads(ctx, T, rng):
     """close() from a second thread at many instants (before, at and between frame arrivals), both tie orders"""
     from sim.sock import server_frame
@@ -438,21 +485,69 @@ def closer_threads(ctx, T, rng):
         t = round(0.05 + k * (6.0 / n), 4)        # after run_forever has started
         for tie in (["closer"], ["main"]):
             for reply in (True, False):
-                ev = list(evs) + ([[t + 0.25, "D", server_frame(8, b"\x03\xe8").hex()]] if reply else [])
+                # ws:// uses Dispatcher, wss:// SSLDispatcher (with and without bytes pending inside the TLS object)
+                scheme, tls = [("ws", False), ("wss", False), ("wss", True)][(k + (1 if reply else 0) + (2 if tie[0] == "main" else 0)) % 3]
+                # the server's close reply, or a late message followed by the reply (traffic that wakes the loop while close() is in progress)
+                tail = [[t + 0.25, "D", server_frame(8, b"\x03\xe8").hex()]] if reply else []
+                if reply and k % 2:
+                    # (a control frame: legal at any point of the stream, also inside the fragmented message of `evs`)
+                    tail = [[t + 0.1, "D", server_frame(10, b"late-pong").hex()], [t + 0.6, "D", server_frame(8, b"\x03\xe8").hex()]]
+                ev = list(evs) + tail
                 ev.sort(key=lambda e: e[0])
-                sim = {"callbacks": dict(allret), "attempts": [{"events": ev}], "args": {}, "closer": [t], "tie": tie, "runs": 1}
+                sim = {"scheme": scheme, "callbacks": dict(allret), "attempts": [{"events": ev, "tls": tls}], "args": {}, "closer": [t], "tie": tie, "runs": 1}
                 res = run_app(sim)
-                T.case(("closer", t, tie[0], reply), bucket="second-thread-close", sample={"t": t, "tie": tie[0], "server_replies": reply, "returns": res["returns"]})
+                T.case(("closer", t, tie[0], reply, scheme, tls), bucket="second-thread-close", sample={"t": t, "tie": tie[0], "server_replies": reply, "scheme": scheme, "returns": res["returns"]})
                 names = [e[1] for e in res["trace"] if e[1] not in ("returned", "closer-calls-close")]
-                pub = {"kind": "closer", "t": t, "tie": tie[0], "reply": reply}
+                pub = {"kind": "closer", "sim": sim}
                 nclose = sum(1 for s_ in res["sockets"] for f in s_["frames"] if f[0] == 8)
-                if res.get("stuck") or res["returns"] != [False] or names.count("close") != 1 or names[-1] != "close" or "error" in names \
-                        or res["threads_alive_at_end"] or not res["app_sock_none"] or any(s["closed"] < 1 for s in res["sockets"]) or nclose > 1:
+                if closer_bad(res):
                     T.fail("spec", pub, "returns False, one on_close last, no on_error, everything released, at most one close frame written",
                            f"{res['returns']} {names} stuck={res.get('stuck')} alive={res['threads_alive_at_end']} close_frames={nclose}"[:300],
                            {"site": "close-from-thread", "cls": "second-thread-close"},
                            what="close() from a second thread did not end the run cleanly")
                     return
+
+
+def multi_runs(ctx, T, rng):
+    """several runs of ONE WebSocketApp object, each ended in its own way: on_close of every run gets that run's own close code and
+    reason (None, None when the run did not end by a server close frame), nothing carried over from an earlier run"""
+    from sim.sock import server_frame
+    cbs = {c: "ret" for c in CBS}
+    cbs["on_message"] = "close"          # a text message makes the application close the connection itself
+    def ending(kind, i):
+        code = 3000 + i
+        reason = f"bye-{i}".encode()
+        if kind == "srv-close-body":
+            return {"events": [[1, "D", server_frame(8, code.to_bytes(2, "big") + reason).hex()]]}, [str(code), "s:" + reason.hex()]
+        if kind == "srv-close-empty":
+            return {"events": [[1, "D", server_frame(8, b"").hex()]]}, ["None", "None"]
+        if kind == "eof":
+            return {"events": [[1, "EOF"]]}, ["None", "None"]
+        if kind == "reset":
+            return {"events": [[1, "D", server_frame(2, b"x").hex()], [2, "R"]]}, ["None", "None"]
+        if kind == "own-close":
+            return {"events": [[1, "D", server_frame(1, b"please close").hex()]]}, ["None", "None"]
+        return {"refuse": True}, ["None", "None"]
+    kinds = ["srv-close-body", "srv-close-empty", "eof", "reset", "own-close", "refused"]
+    seqs = [(a, b) for a in kinds for b in kinds]
+    for _ in range(30 if ctx.tier == "quick" else 600):
+        seqs.append(tuple(rng.choice(kinds) for _ in range(rng.choice([3, 4]))))
+    for seq in seqs:
+        atts, wants = zip(*[ending(k_, i) for i, k_ in enumerate(seq)])
+        sim = {"callbacks": dict(cbs), "attempts": list(atts), "args": {}, "runs": len(seq)}
+        res = run_app(sim)
+        idx = [i for i, e in enumerate(res["trace"]) if e[1] == "returned"]
+        runs, start = [], 0
+        for i in idx:
+            runs.append(res["trace"][start:i])
+            start = i + 1
+        got = [[e[2:] for e in r if e[1] == "close"] for r in runs]
+        T.case(("multi-run", seq), nontrivial=True, bucket="second-run", sample={"endings": list(seq), "on_close_args": got})
+        if len(runs) != len(seq) or got != [[w] for w in wants]:
+            T.fail("spec", {"kind": "multi-run", "endings": list(seq)}, str([[w] for w in wants]), str(got)[:300],
+                   {"site": "teardown", "cls": "close-args", "across_runs": True},
+                   what="each run's on_close must report that run's own ending (code and reason of its close frame, else None, None)")
+            return
 
 
 def external_dispatcher(ctx, T, rng):
@@ -485,4 +580,26 @@ def search(ctx, which="C13"):
 
 
 def replay(ctx, sc):
-    return {"note": "rerun the check; scenario: " + str(sc)[:300]}
+    """re-run one recorded scenario on the implementation and judge it again"""
+    if sc.get("kind") in ("closer", "burst2") and "sim" in sc:
+        res = run_app(sc["sim"])
+        summary = {"returns": res["returns"], "trace": [[e[0], e[1]] for e in res["trace"]][:40], "stuck": res.get("stuck")}
+        if sc["kind"] == "closer":
+            return summary if closer_bad(res) else None
+        times = [e[0] for e in res["trace"] if e[1] in ("data", "message", "ping", "pong")]
+        first = min(e[0] for e in sc["sim"]["attempts"][0]["events"][:-1] if True)
+        last_data = max(e[0] for e in sc["sim"]["attempts"][0]["events"][:-1])
+        return summary if any(t > last_data + 1e-9 for t in times) or len(times) != 5 else None
+    if "sc" not in sc:
+        return {"note": "rerun the check; scenario: " + str(sc)[:300]}
+    s_ = sc["sc"]
+    res, il = run_one(s_)
+    T = Tally()
+    judge_c13(T, ctx, s_, res, il)
+    judge_c14(T, s_, res, il)
+    judge_c15(T, s_, res, il)
+    if ctx.model:
+        mo = ctx.model.run([model_line(s_)])[0]
+        if model_callbacks(mo, s_) != il:
+            T.fail("corr", {"scenario": model_line(s_)}, model_callbacks(mo, s_)[:300], il[:300], {"site": "apprun"})
+    return T.failures[0] if T.failures else None
